@@ -73,7 +73,7 @@ impl PrometheusBuilder {
         // the label is stored under the name exactly as given (key_to_parts matches the key's own labels against THIS name; the
         // rendering sanitises later); an existing global label of that name is replaced in place, a new one is appended
         r.globals() == upsert(self.globals(), text_of(key), text_of(value)),
-//@BEFORE 1 let labels =
+//@BODYSTART
         let mut this = self;
 //@END
 }
